@@ -58,6 +58,23 @@ def classify(fn, inner):
             return cls
         if kind == 'prefix' and inner.startswith(pat):
             return cls
+    # the same roles with renamed type parameters: decided by the parameter's bounds / the owner, not by its spelling
+    import re
+    params = set(g['name'] for g in fn.generics if g['kind'] == 'type' and not g['name'].startswith('<'))
+    root = fn.root or fn.name
+    m = re.match(r'^core::option::Option<([A-Za-z_][A-Za-z0-9_]*)>$', inner)
+    if m and m.group(1) in params:
+        p = m.group(1)
+        fn_bound = any(q.get('self') == p and q.get('k') == 'trait' and (q.get('trait') or '').startswith('core::ops::function::Fn') for q in fn.preds_of)
+        if fn_bound or 'PipeContext' in root:
+            return 'PipeContext.poll_fn'
+        return 'sync.result'
+    if inner in params and ('pipe' in root.split('::')[1:2] or root.split('::')[-1].startswith('pipe') or 'pipe' in root):
+        tr = set((q.get('trait') or '') for q in fn.preds_of if q.get('self') == inner and q.get('k') == 'trait')
+        if 'futures_core::stream::Stream' in tr:
+            return 'pipe.input'
+        if any(t.startswith('core::ops::function::Fn') for t in tr):
+            return 'pipe.process'
     # test module of the crate creates its own mutexes: classify by type, flagged
     return 'UNCLASSIFIED:Mutex<%s>@%s' % (inner, fn.root or fn.name)
 
